@@ -19,7 +19,9 @@ class UnknownArgumentError(CViseError):
         self.arg = arg
 
     def __str__(self):
-        return f"The argument '{self.arg}' is not valid for pass '{self.pass_.__name__}'!"
+        # every caller passes the class name (a str); accept a class as well
+        pass_name = getattr(self.pass_, '__name__', self.pass_)
+        return f"The argument '{self.arg}' is not valid for pass '{pass_name}'!"
 
 
 class InvalidFileError(CViseError):
